@@ -5,7 +5,8 @@ C06, the BYTES — "the output is always a well-formed pcapng of well-formed, re
 that what is WRITTEN for each abstract frame is right, byte for byte, for every frame and payload:
 
   model          `TLX/OutBytes.lean`: `serializeFrame` (scapy 2.7.0 on the four layer stacks the builders make),
-                 `pcapng` / `fileOfFrames` (dpkt 1.9.8 `pcapng.Writer(file, snaplen=20000)` + `writepkt`), tied to the
+                 `pcapng` / `fileOfFrames` (dpkt 1.9.8 `pcapng.Writer(file, snaplen=Gen.writerSnaplen)` + `writepkt`;
+                 the snaplen literal is regenerated from the tree under test), tied to the
                  real libraries byte for byte by harness/ob_outbytes.py on every run;
   specifications `Spec/Rfc1071.lean` (receiver side of the Internet checksum, shared with C11), `Spec/FrameParse.lean`
                  (Ethernet II / RFC 791 / RFC 8200 / RFC 9293 / RFC 768 receiver checking every length field),
@@ -253,7 +254,7 @@ theorem writable_iff (p : Bytes × Nat) : Writable p ↔ PktFits p := by
     have := Nat.mod_lt p.2 (show 0 < 4294967296 by decide)
     omega
 
-/-- `Writer(file, snaplen=20000)` followed by `writepkt` for every packet returns (no `struct.error`) exactly when
+/-- `Writer(file, snaplen=Gen.writerSnaplen)` followed by `writepkt` for every packet returns (no `struct.error`) exactly when
     every packet is writable. -/
 theorem pcapng_ok_iff (pkts : List (Bytes × Nat)) : (∃ f, pcapng pkts = .ok f) ↔ ∀ p ∈ pkts, Writable p := by
   by_cases h : ∀ p ∈ pkts, PktFits p
@@ -264,7 +265,7 @@ theorem pcapng_ok_iff (pkts : List (Bytes × Nat)) : (∃ f, pcapng pkts = .ok f
 
 /-- The file dpkt's writer leaves behind IS the pcapng draft's encoding (the independent encoder of
     `Spec/Containers`, C12) of the packets as events, in the variant `dpktVariant`: little endian, version 1.0, section
-    length unspecified, no options anywhere, one Ethernet interface (snaplen 20000, default microsecond clock), one
+    length unspecified, no options anywhere, one Ethernet interface (snaplen `Gen.writerSnaplen`, default microsecond clock), one
     Enhanced Packet Block per packet on interface 0, original length = captured length. -/
 theorem pcapng_is_draft_encoding (pkts : List (Bytes × Nat)) (f : Bytes) (h : pcapng pkts = .ok f) :
     f = encode (.pcapng dpktVariant) (pkts.map fun p => .pkt p.2 p.1) := by
@@ -290,17 +291,38 @@ def epbBody (p : Bytes × Nat) : Bytes :=
   u32 .le 0 ++ (u32 .le (p.2 / 2 ^ 32) ++ (u32 .le (p.2 % 2 ^ 32) ++ (u32 .le p.1.length ++ (u32 .le p.1.length ++
     padded p.1))))
 
+/-- the two length fields of an Enhanced Packet Block body (draft §4.3: Captured Packet Length at offset 12, Original
+    Packet Length at offset 16) -/
+theorem epbBody_lengths (p : Bytes × Nat) (h : p.1.length < 2 ^ 32) :
+    Container.fld .le (epbBody p) 12 4 = p.1.length ∧ Container.fld .le (epbBody p) 16 4 = p.1.length := by
+  have h256 : p.1.length < 256 ^ 4 := by rw [Lemmas.Container.pow_256_4]; exact h
+  unfold epbBody
+  constructor
+  · rw [Lemmas.Container.fld_skip _ _ _ _ _ (by simp), Lemmas.Container.fld_skip _ _ _ _ _ (by simp),
+      Lemmas.Container.fld_skip _ _ _ _ _ (by simp)]
+    simp only [Lemmas.Container.enc_length]
+    exact Lemmas.Container.fld_enc_here _ _ _ _ h256
+  · rw [Lemmas.Container.fld_skip _ _ _ _ _ (by simp), Lemmas.Container.fld_skip _ _ _ _ _ (by simp),
+      Lemmas.Container.fld_skip _ _ _ _ _ (by simp), Lemmas.Container.fld_skip _ _ _ _ _ (by simp)]
+    simp only [Lemmas.Container.enc_length]
+    exact Lemmas.Container.fld_enc_here _ _ _ _ h256
+
 /-- `pcapng_wellformed`: the written file is a sequence of blocks in the draft's general block structure that tile
     it exactly (`walk`: every Block Total Length ≥ 12, a multiple of 4, within the file, equal to its trailing copy; no
     stray bytes): a Section Header Block (byte-order magic 0x1A2B3C4D, version 1.0, section length −1), ONE
-    Interface Description Block (link type 1 = Ethernet, snaplen 20000, no options: microsecond time stamps), then one
-    Enhanced Packet Block per frame, in order, on interface 0 — the interface that was described. -/
+    Interface Description Block (link type 1 = Ethernet, the snaplen of the source, no options: microsecond time stamps), then one
+    Enhanced Packet Block per frame, in order, on interface 0 — the interface that was described; and in each of them
+    the Captured Packet Length and the Original Packet Length fields (block body offsets 12 and 16) both read the length
+    of the frame: the writer neither truncates nor pads what it counts. (That the captured length also respects the
+    announced snaplen is `caplen_le_snaplen`.) -/
 theorem pcapng_wellformed (pkts : List (Bytes × Nat)) (f : Bytes) (h : pcapng pkts = .ok f) :
     walk f = some (
       (0x0A0D0D0A, u32 .le 0x1A2B3C4D ++ (u16 .le 1 ++ (u16 .le 0 ++ u64 .le (2 ^ 64 - 1)))) ::
-      (1, u16 .le 1 ++ (u16 .le 0 ++ u32 .le 20000)) ::
-      pkts.map fun p => (6, epbBody p)) := by
+      (1, u16 .le 1 ++ (u16 .le 0 ++ u32 .le Gen.writerSnaplen)) ::
+      pkts.map fun p => (6, epbBody p)) ∧
+    ∀ p ∈ pkts, Container.fld .le (epbBody p) 12 4 = p.1.length ∧ Container.fld .le (epbBody p) 16 4 = p.1.length := by
   have hw := (pcapng_ok_iff pkts).mp ⟨f, h⟩
+  refine ⟨?_, fun p hp => epbBody_lengths p (by have := (hw p hp).1; omega)⟩
   have hfit : ∀ p ∈ pkts, PktFits p := fun p hp => (writable_iff p).mp (hw p hp)
   rw [pcapng_is_draft_encoding pkts f h]
   have hwf := dpktVariant_wf pkts hfit
@@ -424,17 +446,71 @@ theorem fileOf_roundtrip_outpkts (pkts : List Pipeline.OutPkt) (file : Bytes)
       exact List.mem_map.mpr ⟨pb, hpb, rfl⟩
     exact (hall _ this).1
 
-/-- A fact about dpkt worth knowing (not a defect of the export for TLS: records are at most 2^14 + 2048 bytes): the
-    writer announces snaplen 20000 in the interface description but does not clip or refuse longer packets — the
-    captured length it writes is the frame length (`epbBody`), so a QUIC export of a jumbo datagram has EPBs longer
-    than the announced snaplen. -/
-theorem snaplen_is_not_a_limit (data : Bytes) (h : data.length = 20001) : ∃ f, pcapng [(data, 0)] = .ok f :=
-  (pcapng_ok_iff _).mpr (by
-    intro p hp
-    simp only [List.mem_singleton] at hp
-    subst hp
-    simp only [Writable, h]
-    omega)
+/-! ### the announced snaplen -/
+
+/-- `frame_length_bound`: no frame scapy serialises for the builders is longer than 14 + 40 + 65535 = 65589 bytes (an
+    IPv6 frame whose payload length field is full; an IPv4 frame is at most 14 + 65535). -/
+theorem frame_length_bound (f : Frame) (b : Bytes) (hwf : f.WF) (h : serializeFrame f = .ok b) : b.length ≤ 65589 := by
+  obtain ⟨hfit, rfl⟩ := serialize_ok h
+  rw [frameBytes_length f hwf]
+  obtain ⟨_, _, _, hl⟩ := hfit
+  split at hl <;> simp_all <;> omega
+
+/-- the proof obligation on the tree under test: the snaplen the tool announces (`Gen.writerSnaplen`, REGENERATED from
+    `dpkt.pcapng.Writer(file, snaplen=…)` in `run()`) is not below the longest frame it can write. With the literal
+    20000 of the unrepaired source this `decide` fails, and with it the check of C06. -/
+theorem snaplen_covers_every_frame : 65589 ≤ Gen.writerSnaplen := by decide
+
+/-- `caplen_le_snaplen`: in every file the program writes, the Captured Packet Length of every Enhanced Packet Block
+    is at most the SnapLen of the Interface Description Block it refers to (draft §4.3: "the minimum value among the
+    Original Packet Length and the snapshot length") — and equals the Original Packet Length: nothing is cut. -/
+theorem caplen_le_snaplen (fs : List Frame) (file : Bytes) (hwf : ∀ f ∈ fs, f.WF) (h : fileOfFrames fs = .ok file) :
+    ∃ (snaplenField : Bytes) (epbs : List Bytes),
+      walk file = some (
+        (0x0A0D0D0A, u32 .le 0x1A2B3C4D ++ (u16 .le 1 ++ (u16 .le 0 ++ u64 .le (2 ^ 64 - 1)))) ::
+        (1, u16 .le 1 ++ (u16 .le 0 ++ snaplenField)) :: epbs.map fun body => (6, body)) ∧
+      epbs.length = fs.length ∧
+      Container.rdNat .le snaplenField = Gen.writerSnaplen ∧
+      ∀ body ∈ epbs, Container.fld .le body 12 4 ≤ Gen.writerSnaplen ∧
+        Container.fld .le body 12 4 = Container.fld .le body 16 4 := by
+  have hall := fileOfFrames_ok fs file h
+  rw [fileOfFrames_eq fs hall] at h
+  obtain ⟨hwalk, hlen⟩ := pcapng_wellformed _ file h
+  refine ⟨u32 .le Gen.writerSnaplen, (fs.map fun f => (frameBytes f, f.ts)).map epbBody, ?_, by simp, ?_, ?_⟩
+  · rw [hwalk]; simp only [List.map_map]; rfl
+  · exact Lemmas.Container.rd_u32 _ _ (by decide)
+  · intro body hb
+    simp only [List.mem_map] at hb
+    obtain ⟨p, ⟨f, hf, rfl⟩, rfl⟩ := hb
+    obtain ⟨h12, h16⟩ := hlen _ (List.mem_map.mpr ⟨f, hf, rfl⟩)
+    rw [h12, h16]
+    refine ⟨?_, rfl⟩
+    have hser : serializeFrame f = .ok (frameBytes f) := by
+      rcases serialize_cases f with ⟨_, he⟩ | ⟨hn, _⟩
+      · exact he
+      · exact absurd (hall f hf).1 hn
+    exact Nat.le_trans (frame_length_bound f _ (hwf f hf) hser) snaplen_covers_every_frame
+
+/-- The defect this guards against, as it was: the source announced snaplen 20000, and dpkt neither clips nor refuses
+    longer packets. A QUIC export of 30000 bytes of stream data in one datagram over IPv4 (`QUICOutputbuilder`) is a
+    30042-byte frame, serialisable and writable, whose Enhanced Packet Block has Captured Packet Length 30042 > 20000:
+    not a valid pcapng (found by the strict reader of the harness on the real tool's output). -/
+theorem legacy_snaplen_exceeded (f : Frame) (hwf : f.WF) (h4 : f.ipv6 = false) (hu : f.l4 = .udp)
+    (hsp : f.src.port < 65536) (hdp : f.dst.port < 65536) (hpay : f.payload.length = 30000) (hts : f.ts < 2 ^ 64) :
+    ∃ b, serializeFrame f = .ok b ∧ Writable (b, f.ts) ∧
+      Container.fld .le (epbBody (b, f.ts)) 12 4 = 30042 ∧ (20000 : Nat) < 30042 := by
+  have hfit : Fits f := by
+    refine ⟨hsp, hdp, by rw [hu]; rfl, ?_⟩
+    unfold l4Len; rw [hu, h4, hpay]; decide
+  have hser : serializeFrame f = .ok (frameBytes f) := by
+    rcases serialize_cases f with ⟨_, he⟩ | ⟨hn, _⟩
+    · exact he
+    · exact absurd hfit hn
+  have hlen : (frameBytes f).length = 30042 := by
+    rw [frameBytes_length f hwf]; unfold l4Len; rw [hu, h4, hpay]; rfl
+  refine ⟨_, hser, (writable_iff _).mpr (pktFits_of_fits f hwf hfit hts), ?_, by decide⟩
+  have := (epbBody_lengths (frameBytes f, f.ts) (by simp only [hlen]; decide)).1
+  rw [this, hlen]
 
 end
 
@@ -464,11 +540,12 @@ def exUdp6Bytes : Bytes :=
    0xfe, 0x80, 0x00, 0x00, 0x00, 0x00, 0x00, 0x00, 0x00, 0x00, 0x00, 0x00, 0x00, 0x00, 0x00, 0x01, 0x1f, 0x90, 0x9c,
    0x40, 0x00, 0x0d, 0x03, 0x2d, 0x68, 0x65, 0x6c, 0x6c, 0x6f]
 
-/-- what `Writer(file, snaplen=20000)`, `writepkt(exTcp4Bytes, 1.5)`, `writepkt(exUdp6Bytes, 1700000000.000001)` wrote -/
+/-- what `Writer(file, snaplen=N)`, `writepkt(exTcp4Bytes, 1.5)`, `writepkt(exUdp6Bytes, 1700000000.000001)` wrote (measured
+    with N = 20000 and N = 262144: only the four snaplen bytes differ) -/
 def exFile : Bytes :=
   [0x0a, 0x0d, 0x0d, 0x0a, 0x1c, 0x00, 0x00, 0x00, 0x4d, 0x3c, 0x2b, 0x1a, 0x01, 0x00, 0x00, 0x00, 0xff, 0xff, 0xff,
    0xff, 0xff, 0xff, 0xff, 0xff, 0x1c, 0x00, 0x00, 0x00, 0x01, 0x00, 0x00, 0x00, 0x14, 0x00, 0x00, 0x00, 0x01, 0x00,
-   0x00, 0x00, 0x20, 0x4e, 0x00, 0x00, 0x14, 0x00, 0x00, 0x00, 0x06, 0x00, 0x00, 0x00, 0x5c, 0x00, 0x00, 0x00, 0x00,
+   0x00, 0x00] ++ Spec.Containers.u32 .le Gen.writerSnaplen ++ [0x14, 0x00, 0x00, 0x00, 0x06, 0x00, 0x00, 0x00, 0x5c, 0x00, 0x00, 0x00, 0x00,
    0x00, 0x00, 0x00, 0x00, 0x00, 0x00, 0x00, 0x60, 0xe3, 0x16, 0x00, 0x39, 0x00, 0x00, 0x00, 0x39, 0x00, 0x00, 0x00,
    0x02, 0x00, 0x00, 0x00, 0x00, 0x02, 0x02, 0x00, 0x00, 0x00, 0x00, 0x01, 0x08, 0x00, 0x45, 0x00, 0x00, 0x2b, 0x00,
    0x01, 0x00, 0x00, 0x40, 0x06, 0x66, 0xca, 0x0a, 0x00, 0x00, 0x01, 0x0a, 0x00, 0x00, 0x02, 0x04, 0xd2, 0x00, 0x50,
